@@ -172,7 +172,7 @@ pub struct Case {
     /// --output=F, --global=k=v) and their order relative to the positionals
     pub spelling: u64,
     /// how the three files are named: 0 plain, 1 blanks and non-ASCII letters in the names,
-    /// 2 inside a sub-directory, 3 absolute paths
+    /// 2 inside a sub-directory, 3 absolute paths, 4 the output file is called `-`
     pub naming: u8,
 }
 
@@ -187,6 +187,8 @@ impl Case {
                 dir.join("src.py").to_string_lossy().to_string(),
                 dir.join("out.json").to_string_lossy().to_string(),
             ),
+            // an output file whose name is a single hyphen is still a file
+            4 => ("prog.tsg".into(), "src.py".into(), "-".into()),
             _ => ("prog.tsg".into(), "src.py".into(), "out.json".into()),
         }
     }
@@ -602,6 +604,15 @@ pub fn make_case(ctx: &ShardCtx, i: u64) -> Case {
         let bytes = *r.pick(&[60usize, 70_000, 300_000, 1_200_000]);
         source = "x = 1\n".repeat(bytes / 6);
     }
+    let mut tsg = tsg;
+    if r.chance(1, 25) {
+        // a file that starts with a byte-order mark: whatever the library makes of it
+        if r.chance(1, 2) {
+            tsg = format!("\u{feff}{}", tsg);
+        } else {
+            source = format!("\u{feff}{}", source);
+        }
+    }
     if r.chance(1, 4) {
         // a source file whose last line is not newline-terminated
         while source.ends_with('\n') {
@@ -660,7 +671,7 @@ pub fn make_case(ctx: &ShardCtx, i: u64) -> Case {
         fault,
         kind: kind.to_string(),
         spelling: if r.chance(1, 4) { 0 } else { r.next() | 1 },
-        naming: *r.pick(&[0u8, 0, 0, 1, 2, 3]),
+        naming: *r.pick(&[0u8, 0, 0, 1, 2, 3, 4]),
     }
 }
 
